@@ -250,6 +250,33 @@ static int child_helpers(void *a_){
   return 0;
 }
 
+/* ---------------- tts mode: the public train_test_split(), x[i] = i ---------------- */
+static int child_tts(void *a_){
+  int *a = (int*)a_; int n = a[0], num = a[1], den = a[2]; unsigned int seed = (unsigned int)a[3];
+  matrix *x, *y, *xt, *yt, *xs, *ys; uivector *ids;
+  NewMatrix(&x, n, 2); NewMatrix(&y, n, 2); initMatrix(&xt); initMatrix(&yt); initMatrix(&xs); initMatrix(&ys); initUIVector(&ids);
+  for(int i = 0; i < n; i++){ x->data[i][0] = i; x->data[i][1] = 1000 + i; y->data[i][0] = -i; y->data[i][1] = 7 * i + 1; }
+  double ts = (double)num / (double)den;     /* den is a power of two: the fraction is exact in double */
+  train_test_split(x, y, ts, xt, yt, xs, ys, ids, &seed);
+  /* projection: ids as returned, ids read back from the copied rows (column 0), row consistency flag */
+  int rows_ok = (yt->row == xt->row && ys->row == xs->row && xt->col == 2 && xs->col == 2 && yt->col == 2 && ys->col == 2 && ids->size == xs->row);
+  static char buf[8192]; int q = 0;
+  q += snprintf(buf + q, sizeof buf - q, "{\"e\":\"Tts\",\"n\":%d,\"num\":%d,\"den\":%d,\"ids\":[", n, num, den);
+  for(size_t i = 0; i < ids->size; i++) q += snprintf(buf + q, sizeof buf - q, "%s%ld", i ? "," : "", ids->data[i] < 2000000000UL ? (long)ids->data[i] : -2L);
+  q += snprintf(buf + q, sizeof buf - q, "],\"test\":[");
+  for(size_t i = 0; i < xs->row; i++){ double v = xs->data[i][0]; long id = (v == floor(v) && v >= 0 && v < n) ? (long)v : -2L;
+    if(id >= 0 && rows_ok && (xs->data[i][1] != 1000 + id || ys->data[i][0] != -id || ys->data[i][1] != 7 * id + 1)) rows_ok = 0;
+    q += snprintf(buf + q, sizeof buf - q, "%s%ld", i ? "," : "", id); }
+  q += snprintf(buf + q, sizeof buf - q, "],\"train\":[");
+  for(size_t i = 0; i < xt->row; i++){ double v = xt->data[i][0]; long id = (v == floor(v) && v >= 0 && v < n) ? (long)v : -2L;
+    if(id >= 0 && rows_ok && (xt->data[i][1] != 1000 + id || yt->data[i][0] != -id || yt->data[i][1] != 7 * id + 1)) rows_ok = 0;
+    q += snprintf(buf + q, sizeof buf - q, "%s%ld", i ? "," : "", id); }
+  snprintf(buf + q, sizeof buf - q, "],\"rows\":%d}", rows_ok);
+  VRT_EMIT("%s", buf);
+  DelMatrix(&x); DelMatrix(&y); DelMatrix(&xt); DelMatrix(&yt); DelMatrix(&xs); DelMatrix(&ys); DelUIVector(&ids);
+  return 0;
+}
+
 int main(int argc, char **argv){
   if(argc < 5){ fprintf(stderr, "usage\n"); return 2; }
   vrt_open(argv[1]);
@@ -295,6 +322,18 @@ int main(int argc, char **argv){
       prob P; gen_problem(&P, &R, algo, n, p, ny, nlv);
       run_block(&P, &C, &R);
       free_problem(&P);
+    }
+  }
+  else if(!strcmp(mode, "tts")){
+    /* ncases = max n; every n 2..ncases x test fractions k/8 (k = 0..7: the test part never takes every object, 0 = empty test part), two seeds */
+    for(int n = 2; n <= ncases; n++) for(int k = 0; k <= 7; k++) for(int sd = 0; sd < 2; sd++){
+      if(ceil((double)k / 8.0 * n) >= n) continue;        /* an empty training part is outside the property's domain */
+      int a[4] = {n, k, 8, (int)(seed % 100000) + 17 * n + 3 * k + sd};
+      VRT_EMIT("{\"e\":\"Reset\"}");
+      VRT_EMIT("{\"e\":\"Run\",\"scheme\":\"tts\",\"algo\":\"none\",\"n\":%d,\"p\":2,\"ny\":2,\"nlv\":1,\"xs\":0,\"ys\":0,\"groups\":0,\"nth\":1,\"total\":0,\"scol\":1,\"lab\":[]}", n);
+      int rc = vrt_run_child(child_tts, a, 60);
+      if(rc != 0) VRT_EMIT("{\"e\":\"Crash\",\"rc\":%d,\"scheme\":\"tts\",\"algo\":\"none\",\"n\":%d,\"p\":2,\"ny\":2,\"nlv\":1,\"groups\":%d,\"iters\":1,\"nth\":1}", rc, n, k);
+      else VRT_EMIT("{\"e\":\"End\",\"workers\":0,\"shape\":1}");
     }
   }
   else if(!strcmp(mode, "labels")){
